@@ -66,9 +66,13 @@ type forkRun struct {
 	blocks  map[common.Hash]*fblock
 	genesis common.Hash
 
-	head       common.Hash
-	accepted   uint64 // accepted by the pool from the harness (client submissions)
-	everOnPath uint64 // top-level txs of blocks that have been on the subject's current fork
+	head     common.Hash
+	accepted uint64 // accepted by the pool from the harness (client submissions)
+	// required: txs the pool must hold now. A tx becomes required when a client submission of it is accepted and
+	// when it is a (top-level) tx of a block abandoned by a fork switch; it stops being required when it gets onto
+	// the current fork (top-level or executed inside a box: the engine tells the pool to delete it) and when the
+	// pool was entitled to drop it because a box / sub-tx relative is pending or on the current fork.
+	required   uint64
 	everInPool uint64
 	boxDelSubs uint64 // sub txs of boxes the engine has told the pool to delete (boxes on a current fork)
 	st         *forkStats
@@ -187,6 +191,7 @@ func (fr *forkRun) apply(ev ForkEvent) error {
 		if !fr.subject.BC.TxGuard().ExistTx(fr.subject.BC.CurrentBlock().Hash(), tx) {
 			if err := fr.subject.Pool.AddTx(fx.WireTx(tx)); err == nil {
 				fr.accepted |= bit(ev.Tx)
+				fr.required |= bit(ev.Tx)
 				fr.st.addsAccepted++
 			}
 		}
@@ -232,7 +237,7 @@ func (fr *forkRun) check(ev ForkEvent) {
 		onTop |= fb.top
 		onExec |= fb.exec
 	}
-	fr.everOnPath |= onTop
+	fr.required &^= onTop | onExec
 	for _, fb := range newPath {
 		for _, id := range idsOf(fb.top) {
 			fr.boxDelSubs |= fr.subsM[id]
@@ -299,6 +304,10 @@ func (fr *forkRun) check(ev ForkEvent) {
 	}
 	fr.st.poolEntries += int64(len(sel))
 	fr.everInPool |= pm
+	if os.Getenv("C18_FORK_TRACE") != "" {
+		fmt.Fprintf(os.Stderr, "trace: %-60s head h%d %s stable h%d switched=%v pool=%v path=%v exec=%v\n", fr.describe(ev), cur.Height(), newHead.Prefix(),
+			fr.subject.BC.StableBlock().Height(), switched, idsOf(pm), idsOf(onTop), idsOf(onExec))
+	}
 	for _, id := range idsOf(pm) {
 		if both := fr.subsM[id] & pm; both != 0 {
 			cls := "C18/selection-box-and-subtx"
@@ -340,13 +349,15 @@ func (fr *forkRun) check(ev ForkEvent) {
 				fr.describe(ev), switched, x, cur.Height(), newHead.Prefix()))
 		}
 	}
-	// txs that must be in the pool: submitted and accepted, or once on the current fork, and not on it now
+	// txs that must be in the pool (see forkRun.required)
 	fr.st.abandonedTxs += int64(len(idsOf(abandoned &^ (onTop | onExec))))
-	want := (fr.accepted | fr.everOnPath) &^ (onTop | onExec)
+	fr.required |= abandoned &^ (onTop | onExec)
+	want := fr.required
 	fr.st.mustPresent += int64(len(idsOf(want)))
 	for _, x := range idsOf(want &^ pm) {
 		if fr.relatives(x)&(pm|onTop|onExec) != 0 {
 			fr.st.excused++ // box / sub-tx exclusivity explains the absence
+			fr.required &^= bit(x)
 			continue
 		}
 		cls := "C18/accepted-tx-lost:chain"
